@@ -46,6 +46,54 @@ theorem gen_bernoulliAccept (r p : Rat) : Gen.bernoulliAccept r p = decide (r < 
   apply decide_eq_decide.mpr
   constructor <;> intro h <;> linarith
 
+
+/-! ### Group selectors (`AgeGroup.__call__`) -/
+
+theorem gen_ageGroupInLow (a low : Rat) : Gen.ageGroupInLow a low = decide (low ≤ a) := by
+  unfold Gen.ageGroupInLow
+  apply decide_eq_decide.mpr
+  constructor <;> intro h <;> linarith
+
+theorem gen_ageGroupInHigh (a high : Rat) : Gen.ageGroupInHigh a high = decide (a < high) := by
+  unfold Gen.ageGroupInHigh
+  apply decide_eq_decide.mpr
+  constructor <;> intro h <;> linarith
+
+/-- a group constructed with `do_cache=False` is recomputed on every call, whatever its cache holds -/
+theorem gen_recompute_nocache (tc ti : Int) (un : Bool) : Gen.ageGroupRecompute false tc ti un = true := by
+  cases un <;> simp [Gen.ageGroupRecompute]
+
+/-- a cache taken on another step is never reused -/
+theorem gen_recompute_stale (dc : Bool) {tc ti : Int} (un : Bool) (h : tc ≠ ti) :
+    Gen.ageGroupRecompute dc tc ti un = true := by
+  cases dc <;> cases un <;> simp [Gen.ageGroupRecompute, h]
+
+theorem mem_members {low : Rat} {high : Option Rat} {p : People} {u : Nat} :
+    u ∈ members low high p ↔ u ∈ p.auids ∧ low ≤ p.age u ∧ ∀ h, high = some h → p.age u < h := by
+  unfold members inBand
+  cases high with
+  | none => simp [gen_ageGroupInLow]
+  | some h => simp [gen_ageGroupInLow, gen_ageGroupInHigh]
+
+theorem call_low (g : AgeGroup) (ti : Int) (p : People) : (g.call ti p).1.low = g.low := by
+  unfold AgeGroup.call; split <;> rfl
+
+theorem call_high (g : AgeGroup) (ti : Int) (p : People) : (g.call ti p).1.high = g.high := by
+  unfold AgeGroup.call; split <;> rfl
+
+theorem call_doCache (g : AgeGroup) (ti : Int) (p : People) : (g.call ti p).1.doCache = g.doCache := by
+  unfold AgeGroup.call; split <;> rfl
+
+/-- The cache invariant: never used yet (stamp below every step), or holding the membership of the stamped step. -/
+def AgeGroup.Inv (P : Int → People) (g : AgeGroup) : Prop :=
+  g.tiCache < 0 ∨ g.uids = some (members g.low g.high (P g.tiCache))
+
+/-- What a group parameter must satisfy at step `ti` for `get_uids` to return the specified group. -/
+def Group.Fresh (P : Int → People) (ti : Int) : Group → Prop
+  | .age g => AgeGroup.Inv P g
+  | .explicit l => ∀ u ∈ l, u ∈ (P ti).auids
+  | _ => True
+
 /-! ### Part 2: per-agent factors -/
 
 theorem b2r_ne_zero {b : Bool} : b2r b ≠ 0 ↔ b = true := by
